@@ -286,6 +286,9 @@ func (o *out) trail(s string, glue bool, kind string) string {
 	}
 	l.stat("trailing-comment:" + kind)
 	if glue {
+		if strings.HasSuffix(s, "/") {
+			return s // "x/" + "//c" would be read as "x" + "///c"
+		}
 		return s + o.comment()
 	}
 	return s + l.sp() + o.comment()
